@@ -5,11 +5,12 @@
 From Saito Require Import Base Chain ChainBasics ChainInv ChainWind ChainAdd ChainProofs ChainCheck.
 
 (* the observation: stored blocks with their flags, spendable set, by-height index at
-   every id, reported tip id and hash.  (A record of these with function
+   every id, reported tip id and hash, Blockchain.last_block_id / last_block_hash.  (A record of these with function
    extensionality is avoided: [obs_eq c st st'] is the component-wise equality
      blocks st' = blocks st /\ utxo st' = utxo st
      /\ (forall id, lc_hash_at c (ring st') id = lc_hash_at c (ring st) id)
-     /\ latest_id st' = latest_id st /\ latest_hash st' = latest_hash st.) *)
+     /\ latest_id st' = latest_id st /\ latest_hash st' = latest_hash st
+     /\ last_id st' = last_id st /\ last_hash st' = last_hash st.) *)
 
 (* a block that is not accepted — already known, too old / retry, invalid on its own,
    or triggering a reorganisation that fails at the first, a middle or the last block
